@@ -565,3 +565,108 @@ func ExtendMultiDelete(w *World, rng *rand.Rand) {
 	w.Features["multi-delete-on-"+on] = true
 	w.Features["delete-of-"+on] = true
 }
+
+// LateClaimSpec describes a small directed world around ONE attribute of one permanode whose
+// history contains a del-attribute: whether an OLDER add/set of that attribute is merged into a
+// live corpus before or after the (newer) del-attribute depends on the arrival order only.
+type LateClaimSpec struct {
+	// Kind of the older claim: Set or Add.
+	Kind string
+	// DelWithValue: the del-attribute names the value (removes one value) instead of the whole
+	// attribute (a value-less del-attribute removes every value).
+	DelWithValue bool
+	// TwoSigners: the older claim is made by a second signer (it may wait for that signer's key
+	// while the del-attribute is already merged).
+	TwoSigners bool
+	// Extra claims on other attributes of the same permanode (dates before, between and after).
+	Extra int
+	// ReAdd: one more add of the attribute, newer than the del-attribute.
+	ReAdd bool
+	// Future: 1 adds a permanode whose ONLY claim is dated in the 22nd century (a client whose
+	// clock runs ahead); 2 also adds a permanode with several such claims and one past claim.
+	// Such dates are "after now" for every run in this century, so the wall clock decides nothing.
+	Future int
+}
+
+// LateClaimWorld builds the world of spec (see LateClaimSpec).
+func LateClaimWorld(rng *rand.Rand, label string, spec LateClaimSpec) *World {
+	w := newWorld()
+	s1 := NewSigner(1)
+	w.Signers = []*Signer{s1}
+	w.add(s1.Pub, "key")
+	if spec.TwoSigners {
+		s2 := NewSigner(2)
+		w.Signers = append(w.Signers, s2)
+		w.add(s2.Pub, "key")
+		w.Features["two-signers"] = true
+	}
+	pn := s1.Permanode(label + "-late-claim-pn")
+	w.add(pn, "permanode", s1.PubRef)
+	w.Permanodes = append(w.Permanodes, pn.Ref)
+	w.PNSigner[pn.Ref] = 1
+	dates := newC06Dates(w, rng)
+	ds := dates.ordered(3 + spec.Extra)
+	// the three dates of the attribute's own history, in order, among the others
+	pick := rng.Perm(len(ds))[:3]
+	sort.Ints(pick)
+	attr := []string{"tag", "title", "description"}[rng.Intn(3)]
+	kind := spec.Kind
+	if kind == "" {
+		kind = Set
+	}
+	oldSigner := 1
+	if spec.TwoSigners {
+		oldSigner = 2
+	}
+	w.addClaim(oldSigner, kind, pn.Ref, attr, "old value", ds[pick[0]])
+	delVal := ""
+	if spec.DelWithValue {
+		delVal = "old value"
+		w.Features["late-claim-del-with-value"] = true
+	} else {
+		w.Features["late-claim-valueless-del"] = true
+	}
+	w.addClaim(1, Del, pn.Ref, attr, delVal, ds[pick[1]])
+	if spec.ReAdd {
+		w.addClaim(1, Add, pn.Ref, attr, "newer value", ds[pick[2]])
+		w.Features["late-claim-re-add"] = true
+	}
+	used := map[int]bool{pick[0]: true, pick[1]: true, pick[2]: true}
+	others := []string{"camliNodeType", "description", "title", "tag"}
+	k := 0
+	for i := range ds {
+		if used[i] || k >= spec.Extra {
+			continue
+		}
+		oa := others[k%len(others)]
+		if oa == attr {
+			oa = "keyword"
+		}
+		w.addClaim(1, Set, pn.Ref, oa, fmt.Sprintf("other-%d", k), ds[i])
+		k++
+	}
+	w.Features["late-claim-"+kind] = true
+	if spec.Future > 0 {
+		// explicit dates, after every use of the date source (whose range follows the claims)
+		fut := func(n int) time.Time {
+			return time.Date(2100+rng.Intn(40), time.Month(1+rng.Intn(12)), 1+rng.Intn(27), rng.Intn(24), rng.Intn(60), n, 0, time.UTC)
+		}
+		p1 := s1.Permanode(label + "-future-single-claim-pn")
+		w.add(p1, "permanode", s1.PubRef)
+		w.Permanodes = append(w.Permanodes, p1.Ref)
+		w.PNSigner[p1.Ref] = 1
+		w.addClaim(1, Set, p1.Ref, "title", "written by a clock that runs ahead", fut(1))
+		w.Features["future-dated-single-claim-permanode"] = true
+		if spec.Future > 1 {
+			p2 := s1.Permanode(label + "-future-multi-claim-pn")
+			w.add(p2, "permanode", s1.PubRef)
+			w.Permanodes = append(w.Permanodes, p2.Ref)
+			w.PNSigner[p2.Ref] = 1
+			w.addClaim(1, Add, p2.Ref, "tag", "ahead-1", fut(2))
+			w.addClaim(1, Add, p2.Ref, "tag", "ahead-2", fut(3))
+			w.addClaim(1, Set, p2.Ref, "title", "past title", time.Date(2001, 2, 3, 4, 5, 6, 0, time.UTC))
+			w.Features["future-dated-multi-claim-permanode"] = true
+		}
+	}
+	return w
+}
